@@ -279,10 +279,10 @@ theorem value_total (f : Nat) :
 /-! ## inline images -/
 
 /-- the `EI` search: what is found lies inside the input, and the collected bytes (including the
-end-of-line byte before `EI`) stay below `maxInlineImageBytes` -/
+end-of-line byte before `EI`) are at most `maxInlineImageBytes + 1` -/
 def IISpec (res : IIRes) (n len : Nat) : Prop :=
   match res with
-  | .found d r => r.length + d.length = len ∧ n + d.length < Gen.content_maxInlineImageBytes
+  | .found d r => r.length + d.length = len ∧ (d = [] ∨ n + d.length ≤ Gen.content_maxInlineImageBytes + 1)
   | .capped r => r.length ≤ len
   | .eof => True
 
@@ -293,17 +293,25 @@ theorem iiLoop_spec (inp : Bytes) : ∀ (n prev : Nat), IISpec (iiLoop n prev in
     simp only [iiLoop]
     split
     · simp [IISpec]
-    · split <;> simp [IISpec] <;> omega
+    · split <;> simp [IISpec]
   | cons b r ih =>
     intro n prev
     simp only [iiLoop]
     split
     · simp [IISpec]
     · split
-      · simp [IISpec]; omega
-      · have := ih (n + 1) b
+      · simp [IISpec]
+      · rename_i hcap
+        have := ih (n + 1) b
         cases h : iiLoop (n + 1) b r with
-        | found d r' => rw [h] at this; simp [IIRes.cons, IISpec] at this ⊢; omega
+        | found d r' =>
+          rw [h] at this
+          simp [IIRes.cons, IISpec] at this ⊢
+          obtain ⟨h1, h2⟩ := this
+          refine ⟨by omega, ?_⟩
+          rcases h2 with h2 | h2
+          · subst h2; simp at hcap ⊢; omega
+          · omega
         | capped r' => rw [h] at this; simp [IIRes.cons, IISpec] at this ⊢; omega
         | eof => simp [IIRes.cons, IISpec]
 
@@ -401,7 +409,9 @@ theorem imageData_total (kv : List (Bytes × Obj)) (rest : Bytes) :
         simp only []
         apply fin
         · omega
-        · simp; omega
+        · rcases hl.2 with h0 | h0
+          · subst h0; simp
+          · simp; omega
 
 /-- **`readInlineImage` is total**: never out of fuel, never moves backwards, and returns at
 most `maxInlineImageBytes` bytes of data. -/
